@@ -1,6 +1,7 @@
 package main
 
 import (
+	"fmt"
 	"go/constant"
 	"go/token"
 	"go/types"
@@ -238,48 +239,138 @@ func c13R2(h H) {
 func c13R4(h H) {
 	r := h.r
 	r.Rule("R4", "stderr never reaches the client: in streamReader.Read a record whose Type == Stderr is written to the client's stderr buffer and control returns to reading the next record without assigning it to the stdout buffer; in Handler.ServeHTTP the stderr buffer's content flows only into LogError", 2)
+	// the demultiplexer as a decision table (E10): the record source is an oracle that yields a scripted sequence of
+	// stdout/stderr records (or an error); stdout payload bytes are 1,2,3…, stderr payload bytes 101,102,…
 	if fn := h.fn("R4", fcPkg, "(*streamReader).Read"); fn != nil {
-		se := map[edge]bool{}
-		for _, i := range ifs(fn) {
-			v, flip := stripNot(i.Cond)
-			b, ok := v.(*ssa.BinOp)
-			if !ok || (b.Op != token.EQL && b.Op != token.NEQ) {
-				continue
-			}
-			// the outcome on which the record IS a stderr record, whichever way the test is written
-			if c, okc := constInt(b.Y); okc && c == 7 && readsField(b.X, "Type") {
-				se[condEdge{i, (b.Op == token.EQL) != flip}.edge()] = true
-			}
+		rdT := fn.Params[0].Type().(*types.Pointer).Elem()
+		type rec struct {
+			stderr bool
+			n      int
 		}
-		okAll := len(se) > 0
-		for e := range se {
-			s := e.From.Succs[e.Idx]
-			f := firstInstr(s)
-			wrote := false
-			leaked := false
-			visit := func(in ssa.Instruction) bool {
-				if c := callOf(in); c != nil && strings.HasSuffix(calleeName(c), "bytes.Buffer).Write") && readsFieldDeep(c.Args[0], "stderr") {
-					wrote = true
+		scripts := [][]rec{
+			{{false, 2}},
+			{{true, 2}, {false, 2}},
+			{{true, 1}, {true, 2}, {false, 3}},
+			{{false, 0}},
+			{{true, 2}},              // then the stream ends with an error
+			{{true, 1}, {false, 1}}, // small reads
+		}
+		bad, nrun := "", 0
+		for si, script := range scripts {
+			for _, plen := range []int{1, 2, 4} {
+				pos := 0
+				var errBytes []int64
+				streamErr := aptr{&aobj{name: "err:eof", typ: types.Typ[types.Int], f: map[string]aval{}}, ""}
+				nextOut, nextErr := int64(1), int64(101)
+				var wantOut, wantErr []int64
+				env := &absEnv{globals: map[string]*aobj{}, noFork: true, maxSteps: 50000}
+				env.ext = func(callee string, args []aval) (aval, bool) {
+					switch {
+					case strings.HasSuffix(callee, "fastcgi.record).read"):
+						if pos >= len(script) {
+							return atuple{anil{}, streamErr}, true
+						}
+						rc := script[pos]
+						pos++
+						var payload []aval
+						for k := 0; k < rc.n; k++ {
+							if rc.stderr {
+								payload = append(payload, aint(nextErr))
+								wantErr = append(wantErr, nextErr)
+								nextErr++
+							} else {
+								payload = append(payload, aint(nextOut))
+								wantOut = append(wantOut, nextOut)
+								nextOut++
+							}
+						}
+						if p, ok := args[0].(aptr); ok {
+							ty := int64(6) // Stdout
+							if rc.stderr {
+								ty = 7
+							}
+							env.store(p.obj, "h.Type", aint(ty))
+						}
+						return atuple{newVals(payload, types.Typ[types.Uint8]), anil{}}, true
+					case strings.HasSuffix(callee, "bytes.Buffer).Write"):
+						if sl, ok := args[1].(avals); ok {
+							for _, cl := range sl.cells {
+								if v, ok := cl.f[""].(aint); ok {
+									errBytes = append(errBytes, int64(v))
+								}
+							}
+						}
+						return atuple{aint(0), anil{}}, true
+					}
+					return nil, false
 				}
-				if st, ok := in.(*ssa.Store); ok {
-					if fa, ok := st.Addr.(*ssa.FieldAddr); ok && fieldName(fa.X.Type(), fa.Field) == "buf" {
-						leaked = true
+				client := &aobj{name: "client", typ: types.Typ[types.Int], f: map[string]aval{}}
+				if st, ok := underlying(rdT).(*types.Struct); ok {
+					for k := 0; k < st.NumFields(); k++ {
+						if p, ok := st.Field(k).Type().(*types.Pointer); ok {
+							client.typ = p.Elem()
+						}
 					}
 				}
-				return true
+				rd := &aobj{name: "reader", typ: rdT, f: map[string]aval{"c": aptr{client, ""}, "buf": anil{}}}
+				var gotOut []int64
+				desc := fmt.Sprintf("script %d (%v), reads of %d bytes", si, script, plen)
+				for call := 0; call < 8 && bad == ""; call++ {
+					var cells []aval
+					for k := 0; k < plen; k++ {
+						cells = append(cells, aint(0))
+					}
+					p := newVals(cells, types.Typ[types.Uint8])
+					res, und := env.run(fn, []aval{aptr{rd, ""}, p})
+					nrun++
+					if und != "" {
+						bad = desc + ": undecided — " + und
+						break
+					}
+					tp, ok := res.(atuple)
+					if !ok || len(tp) != 2 {
+						bad = desc + ": unexpected result " + describeAval(res)
+						break
+					}
+					if _, isNil := tp[1].(anil); !isNil {
+						break // end of stream
+					}
+					n, _ := tp[0].(aint)
+					for k := 0; k < int(n) && k < plen; k++ {
+						if v, ok := p.cells[k].f[""].(aint); ok {
+							gotOut = append(gotOut, int64(v))
+						}
+					}
+					if n == 0 && pos >= len(script) {
+						break
+					}
+				}
+				if bad != "" {
+					break
+				}
+				eq := func(a, b []int64) bool {
+					if len(a) != len(b) {
+						return false
+					}
+					for i := range a {
+						if a[i] != b[i] {
+							return false
+						}
+					}
+					return true
+				}
+				if !eq(gotOut, wantOut) {
+					bad = fmt.Sprintf("%s: the reader of the response receives bytes %v, the responder's stdout was %v", desc, gotOut, wantOut)
+				} else if !eq(errBytes, wantErr) {
+					bad = fmt.Sprintf("%s: the error buffer receives bytes %v, the responder's stderr was %v", desc, errBytes, wantErr)
+				}
 			}
-			if f != nil && visit(f) {
-				// stop at the next record read
-				reach(fn, f, cut{instr: func(in ssa.Instruction) bool {
-					c := callOf(in)
-					return c != nil && strings.HasSuffix(calleeName(c), "fastcgi.record).read")
-				}}, visit)
-			}
-			if !wrote || leaked {
-				okAll = false
+			if bad != "" {
+				break
 			}
 		}
-		r.Check(okAll, "R4", "fastcgi.(*streamReader).Read/stderr-diverted", fn.Pos(), "stderr records are appended to the error buffer and never handed to the reader of the response")
+		r.Check(bad == "", "R4", "fastcgi.(*streamReader).Read/demultiplex-table", fn.Pos(),
+			"for scripted sequences of stdout and stderr records and several read sizes, the reader of the response receives exactly the stdout payloads in order and the error buffer exactly the stderr payloads", fmt.Sprintf("%d evaluations", nrun), bad)
 	}
 	if sv := h.fn("R4", fcPkg, "Handler.ServeHTTP"); sv != nil {
 		okFlow := true
@@ -366,106 +457,118 @@ func c13R5(h H) {
 // next record's header.
 func c13R6(h H) {
 	r := h.r
-	r.Rule("R6", "record framing: in record.read every return whose error can be nil lies behind the io.ReadFull that consumes contentLength+paddingLength bytes (both fields enter the slice bound), the header is read by binary.Read into the record's own header before that, and the content handed back is a slice of the buffer just filled, bounded by contentLength", 3)
+	r.Rule("R6", "record framing as a decision table (E10): record.read is evaluated against a modelled byte source for every header with version {1,2}, type {stdout, stderr, end-request}, content length {0, 2, 5, 65535} and padding {0, 3, 255}, with the payload read succeeding or failing; on success it must have consumed exactly the 8-byte header and contentLength+paddingLength further bytes (computed without 16-bit wrap-around) and hand back exactly the first contentLength payload bytes; a wrong version and a failing read are errors, end-request is end of stream", 1)
 	fn := h.fn("R6", fcPkg, "(*record).read")
 	if fn == nil {
 		return
 	}
-	isCL := func(v ssa.Value) bool { return readsField(v, "ContentLength") }
-	isPL := func(v ssa.Value) bool { return readsField(v, "PaddingLength") }
-	var payload []ssa.Instruction
-	allInstrs(fn, func(in ssa.Instruction) {
-		c := callOf(in)
-		if c == nil || calleeName(c) != "io.ReadFull" {
-			return
-		}
-		sl, ok := c.Args[1].(*ssa.Slice)
-		if !ok || sl.High == nil {
-			return
-		}
-		if derives(sl.High, isCL, flowOpts{}) && derives(sl.High, isPL, flowOpts{}) {
-			payload = append(payload, in)
-		}
-	})
-	if len(payload) == 0 {
-		r.Check(false, "R6", "fastcgi.(*record).read/payload-read", fn.Pos(), "no io.ReadFull over contentLength+paddingLength bytes found: content and padding are not consumed together")
-		return
-	}
-	r.Hold("R6", "fastcgi.(*record).read/payload-read", payload[0].Pos(), "content and padding are consumed by one io.ReadFull whose length is computed from both header fields")
-	isPayload := func(in ssa.Instruction) bool {
-		for _, p := range payload {
-			if in == p {
-				return true
-			}
-		}
-		return false
-	}
-	nonNilErr := func(v ssa.Value, rt *ssa.Return) bool {
-		if certainlyNonNil(v) {
-			return true
-		}
-		if u, ok := v.(*ssa.UnOp); ok {
-			if g, ok := u.X.(*ssa.Global); ok && g.Pkg != nil && !isModPkg(g.Pkg.Pkg.Path()) && types.Identical(g.Type().(*types.Pointer).Elem(), types.Universe.Lookup("error").Type()) {
-				return true // a standard-library error sentinel such as io.EOF
-			}
-		}
-		for _, g := range guardAtoms(fn, nil, rt) {
-			if x, nilWhenTrue, ok := nilCmp(g.Cond); ok && x == v && g.Pos != nilWhenTrue {
-				return true
-			}
-		}
-		return false
-	}
-	n := 0
-	for _, rt := range realReturns(fn) {
-		res := retResults(rt)
-		if len(res) != 2 {
-			continue
-		}
-		mayBeNil := false
-		for _, v := range valuesAt(fn, res[1], rt) {
-			if !nonNilErr(v, rt) {
-				mayBeNil = true
-			}
-		}
-		if !mayBeNil {
-			continue
-		}
-		n++
-		r.Check(mustPass(fn, rt, isPayload), "R6", sprintf("fastcgi.(*record).read/success-return#%d", n), rt.Pos(),
-			"a return that can report success has consumed the record's content and padding (otherwise the next header is read from the middle of this record)")
-		// what is handed back is the filled buffer cut at contentLength
-		okBuf := true
-		var facts []string
-		for _, v := range valuesAt(fn, res[0], rt) {
-			facts = append(facts, describe(v))
-			sl, ok := v.(*ssa.Slice)
-			if !ok || sl.High == nil || !derives(sl.High, isCL, flowOpts{}) || derives(sl.High, isPL, flowOpts{}) || (sl.Low != nil && !isZero(sl.Low)) {
-				okBuf = false
-			}
-		}
-		r.Check(okBuf, "R6", sprintf("fastcgi.(*record).read/content-slice#%d", n), rt.Pos(), "the content returned is buffer[:contentLength] (padding excluded, nothing skipped)", facts...)
-	}
-	if n == 0 {
-		r.Unresolve("R6", "record.read: no return that can report success")
-	}
-	// header first, into the record's own header
-	hdr := findCalls(fn, func(in ssa.Instruction) bool {
-		c := callOf(in)
-		return c != nil && calleeName(c) == "encoding/binary.Read"
-	})
-	okHdr := len(hdr) > 0
-	for _, p := range payload {
-		okHdr = okHdr && mustPass(fn, p, func(in ssa.Instruction) bool {
-			for _, x := range hdr {
-				if in == x {
-					return true
+	recT := fn.Params[0].Type().(*types.Pointer).Elem()
+	bad, nrun := "", 0
+	for _, version := range []int64{1, 2} {
+		for _, typ := range []int64{6, 7, 3} {
+			for _, cl := range []int64{0, 2, 5, 65535} {
+				for _, pl := range []int64{0, 3, 255} {
+					for _, fail := range []bool{false, true} {
+						if bad != "" {
+							continue
+						}
+						asked := int64(0)
+						reads := 0
+						hdrReads := 0
+						readErr := aptr{&aobj{name: "err:short read", typ: types.Typ[types.Int], f: map[string]aval{}}, ""}
+						env := &absEnv{globals: map[string]*aobj{}, noFork: true, maxSteps: 2000000}
+						env.ext = func(callee string, args []aval) (aval, bool) {
+							switch callee {
+							case "encoding/binary.Read":
+								hdrReads++
+								dst := args[2]
+								if ifc, ok := dst.(aiface); ok {
+									dst = ifc.val
+								}
+								if p, ok := dst.(aptr); ok {
+									pre := p.path
+									env.store(p.obj, joinPath(pre, "Version"), aint(version))
+									env.store(p.obj, joinPath(pre, "Type"), aint(typ))
+									env.store(p.obj, joinPath(pre, "ContentLength"), aint(cl))
+									env.store(p.obj, joinPath(pre, "PaddingLength"), aint(pl))
+								}
+								return anil{}, true
+							case "io.ReadFull":
+								reads++
+								sl, ok := args[1].(avals)
+								if _, isNil := args[1].(anil); isNil {
+									ok = true // a nil slice: nothing to read
+								}
+								if !ok {
+									return aunk{"ReadFull into " + describeAval(args[1])}, true
+								}
+								if fail {
+									return atuple{aint(0), readErr}, true
+								}
+								for k, cell := range sl.cells {
+									env.store(cell, "", aint((asked+int64(k))%251+1))
+								}
+								asked += int64(len(sl.cells))
+								return atuple{aint(len(sl.cells)), anil{}}, true
+							}
+							return nil, false
+						}
+						rec := &aobj{name: "record", typ: recT, f: map[string]aval{}}
+						res, und := env.run(fn, []aval{aptr{rec, ""}, aiface{aptr{&aobj{name: "conn", typ: types.Typ[types.Int], f: map[string]aval{}}, ""}, types.Typ[types.Int]}})
+						nrun++
+						desc := fmt.Sprintf("version=%d type=%d contentLength=%d paddingLength=%d payload read fails=%v", version, typ, cl, pl, fail)
+						if und != "" {
+							bad = desc + ": undecided — " + und
+							continue
+						}
+						tp, ok := res.(atuple)
+						if !ok || len(tp) != 2 {
+							bad = desc + ": unexpected result " + describeAval(res)
+							continue
+						}
+						_, errNil := tp[1].(anil)
+						switch {
+						case hdrReads != 1:
+							bad = fmt.Sprintf("%s: the header is read %d times", desc, hdrReads)
+						case version != 1 || typ == 3:
+							if errNil {
+								bad = desc + ": reports success for a record that is an error / the end of the stream"
+							}
+						case fail:
+							if errNil {
+								bad = desc + ": a failed payload read is reported as success"
+							}
+						default:
+							if !errNil {
+								bad = desc + ": reports an error for a well-formed record: " + describeAval(tp[1])
+								break
+							}
+							if asked != cl+pl {
+								bad = fmt.Sprintf("%s: consumes %d bytes after the header, the record has contentLength+paddingLength = %d", desc, asked, cl+pl)
+								break
+							}
+							buf, ok := tp[0].(avals)
+							if _, isNil := tp[0].(anil); isNil && cl == 0 {
+								ok = true
+							}
+							if !ok || int64(len(buf.cells)) != cl {
+								bad = fmt.Sprintf("%s: hands back %s, want the %d content bytes", desc, describeAval(tp[0]), cl)
+								break
+							}
+							for k, cell := range buf.cells {
+								if v, ok := cell.f[""].(aint); !ok || int64(v) != int64(k)%251+1 {
+									bad = fmt.Sprintf("%s: content byte %d is not the %d-th payload byte read", desc, k, k)
+									break
+								}
+							}
+						}
+					}
 				}
 			}
-			return false
-		})
+		}
 	}
-	r.Check(okHdr, "R6", "fastcgi.(*record).read/header-before-payload", fn.Pos(), "the fixed-size header is read (big-endian, binary.Read) before the payload whose length it announces")
+	r.Check(bad == "", "R6", "fastcgi.(*record).read/table", fn.Pos(),
+		"the record reader stays in step with the record stream: success means the whole record (content and padding) was consumed and exactly its content is returned", fmt.Sprintf("%d evaluations", nrun), bad)
 }
 
 func isZero(v ssa.Value) bool {
